@@ -447,7 +447,7 @@ def corrupt(c, kind, rnd):
         # no longer the last push), the redeem script pushed with OP_PUSHDATA1 (a P2SH-wrapped witness program demands exactly one canonical push), alt stack
         # and conditional residue
         ss = vin['script']
-        how = rnd.choice([0, 1, 2, 3, 4, 5, 6, 7, 8, 8, 8, 9, 9])
+        how = rnd.choice([0, 1, 2, 3, 4, 4, 4, 5, 6, 7, 8, 8, 8, 9, 9])
         if how >= 8:
             # an undecodable scriptSig: a push that runs past the end (alone, or after the regular content)
             vin['script'] = (ss if how == 9 else b'') + rnd.choice([b'\x05\xaa', b'\x4c', b'\x4d\xff', b'\x4e\x01\x00', b'\x4b'])
